@@ -1724,10 +1724,15 @@ pub fn contract_cstring_parser<C: Ctx>(cx: &mut C) {
         }
         src.push('"');
         cx.describe(|| format!("source={src} abstract_value={value:?}"));
-        // followed by something that is not a quote, as in a real module
-        let text = format!("{src} END");
+        // followed by the rest of a real module: nothing, or further literals — one of them with a doubled quote
+        let tail = [" END", "\nb UTF8String ::= \"d\"\"e\" END", " \"\" END", "\nc UTF8String ::= \"x\" d UTF8String ::= \"\"\"\" END"][cx.choose(4)];
+        let text = format!("{src}{tail}");
         match crate::lexer::verif_cstring(text.as_str().into()) {
-            Ok((_, got)) => { vob!(cx, "C07.cstring.characters_kept_and_doubled_quotes_unescaped", got == value); }
+            Ok((rest, got)) => {
+                vob!(cx, "C07.cstring.characters_kept_and_doubled_quotes_unescaped", got == value);
+                // the literal ends at ITS closing quote: what follows is left for the next definition
+                vob!(cx, "C07.cstring.literal_ends_at_its_own_closing_quote", rest.into_inner() == tail);
+            }
             Err(_) => { vob!(cx, "C07.cstring.parses", false); }
         }
     }
@@ -2723,8 +2728,11 @@ pub fn contract_value_rendering<C: Ctx>(cx: &mut C) {
 pub fn contract_pipeline_value_assignments<C: Ctx>(cx: &mut C) {
     #[cfg(not(kani))]
     {
-        let kind = cx.choose(14);
+        let kind = cx.choose(15);
         let (decl, want): (String, String) = match kind {
+            // an enumeral that two ENUMERATED types declare: the value is the enumeral OF ITS GOVERNING TYPE
+            14 => { let gov = ["Alpha", "Zeta", "Mid"][cx.choose(3)]; let en = ["red", "blue"][cx.choose(2)];
+                    (format!("Alpha ::= ENUMERATED {{ red, blue }} Zeta ::= ENUMERATED {{ green, red, blue }} Mid ::= ENUMERATED {{ blue(7), red(9) }} v {gov} ::= {en}"), format!("pub const V : {gov} = {gov} :: {en} ;")) }
             // a value of a NAMED collection type with a builtin element: the element type is hoisted as `Anonymous<Name>`
             13 => { let set = cx.any_bool(); let name = if set { "NamedSet" } else { "NamedSeq" };
                     (format!("{name} ::= {} OF INTEGER v {name} ::= {{ 1, 2 }}", if set { "SET" } else { "SEQUENCE" }),
